@@ -5,7 +5,10 @@
 // expectations printed by TLC (VERIF_IN) and report what they saw (VERIF_OUT).
 package opticsdrv
 
-import "unsafe"
+import (
+	"math"
+	"unsafe"
+)
 
 // The leaf palette: for every leaf type of Layout.tla a constructor of "value number k" (0 = the zero value) and
 // its inverse (-1 = not one of the known values).  Values are chosen so that every byte of the representation
@@ -50,9 +53,54 @@ func IdxInt64(v int64) int {
 	return idx3(v == 0, v == 0x1122334455667788, v == -7)
 }
 
-func MkFloat64(k int) float64 { return [3]float64{0, 1.5, -2.25}[k%3] }
+// Floating point and complex leaves: +0, -0 and a NaN.  +0 == -0 although they are different values (1/x, Signbit,
+// the bits), NaN != NaN although it is one value: these are told apart by their bits, never with ==.
+var negZero = math.Copysign(0, -1)
+
+func MkFloat64(k int) float64 { return [3]float64{0, negZero, math.NaN()}[k%3] }
 func IdxFloat64(v float64) int {
-	return idx3(v == 0, v == 1.5, v == -2.25)
+	return idx3(math.Float64bits(v) == 0, math.Float64bits(v) == 1<<63, v != v)
+}
+
+func MkFloat32(k int) float32 { return [3]float32{0, float32(negZero), float32(math.NaN())}[k%3] }
+func IdxFloat32(v float32) int {
+	return idx3(math.Float32bits(v) == 0, math.Float32bits(v) == 1<<31, v != v)
+}
+
+func MkComplex128(k int) complex128 {
+	return [3]complex128{0, complex(negZero, 0), complex(math.NaN(), negZero)}[k%3]
+}
+func IdxComplex128(v complex128) int {
+	re, im := math.Float64bits(real(v)), math.Float64bits(imag(v))
+	return idx3(re == 0 && im == 0, re == 1<<63 && im == 0, real(v) != real(v) && im == 1<<63)
+}
+
+func MkUintptr(k int) uintptr { return [3]uintptr{0, 0x1122334455667788, ^uintptr(6)}[k%3] }
+func IdxUintptr(v uintptr) int {
+	return idx3(v == 0, v == 0x1122334455667788, v == ^uintptr(6))
+}
+
+// Big is the leaf that makes a container larger than 64 KiB: value k = every byte k.
+type Big = [65536]byte
+
+func MkBig(k int) (b Big) {
+	if k%3 != 0 {
+		for i := range b {
+			b[i] = byte(k % 3)
+		}
+	}
+	return
+}
+func IdxBig(v Big) int {
+	for _, x := range v {
+		if x != v[0] {
+			return -1
+		}
+	}
+	if v[0] > 2 {
+		return -1
+	}
+	return int(v[0])
 }
 
 func MkString(k int) string { return [3]string{"", "a", "bc"}[k%3] }
@@ -70,9 +118,10 @@ func IdxPInt(v *int) int {
 	return idx3(v == nil, v == &I1, v == &I2)
 }
 
-func MkAny(k int) any { return [3]any{nil, 7, "x"}[k%3] }
+func MkAny(k int) any { return [3]any{nil, float64(0), negZero}[k%3] }
 func IdxAny(v any) int {
-	return idx3(v == nil, v == any(7), v == any("x"))
+	f, ok := v.(float64)
+	return idx3(v == nil, ok && math.Float64bits(f) == 0, ok && math.Float64bits(f) == 1<<63)
 }
 
 func MkArr3(k int) [3]int8 { return [3][3]int8{{}, {1, 2, 3}, {-1, -2, -3}}[k%3] }
